@@ -87,7 +87,8 @@ func (v *SliceSchema) validate(ctx *p.SchemaCtx) {
 
 	if isZeroVal || refVal.Len() == 0 {
 		if v.defaultVal != nil {
-			refVal.Set(reflect.ValueOf(v.defaultVal))
+			// copy the default: the validated value must not share memory with the schema
+			refVal.Set(copySliceValue(reflect.ValueOf(v.defaultVal)))
 		} else if v.required == nil {
 			return
 		} else {
@@ -334,6 +335,18 @@ func (v *SliceSchema) Contains(value any, options ...TestOption) *SliceSchema {
 	}
 	v.tests = append(v.tests, t)
 	return v
+}
+
+// copySliceValue returns a copy of the slice v; nested slices are copied too.
+func copySliceValue(v reflect.Value) reflect.Value {
+	if v.Kind() != reflect.Slice || v.IsNil() {
+		return v
+	}
+	cp := reflect.MakeSlice(v.Type(), v.Len(), v.Len())
+	for i := 0; i < v.Len(); i++ {
+		cp.Index(i).Set(copySliceValue(v.Index(i)))
+	}
+	return cp
 }
 
 func sliceMin(n int) (Test, BoolTFunc) {
